@@ -333,6 +333,27 @@ def random_full(res, T, rng, n):
                 model.assign(nm, v)
                 model.sync_partners(nm, mod, res)
         observe(res, T, t, cls, mod, model, case, f"{path} assignment")
+        # second stage: the module is now taken from a file (clone) and its options are changed again,
+        # in particular lowered / switched off; what is saved must be the new state, not the loaded record
+        if rng.random() < 0.5:
+            mod2 = mod.clone()
+            model.sync_group(mod2, res)
+            stage2 = []
+            for nm in rng.sample(names, rng.randint(1, len(names))):
+                o = by[nm]
+                cur = getattr(mod2, nm)
+                if o.size == 1:
+                    v = not cur
+                else:
+                    vals = [x for x in _all_values(o) if x != _ival(cur)]
+                    v = min(vals) if rng.random() < 0.5 else rng.choice(vals)
+                setattr(mod2, nm, v)
+                model.assign(nm, v)
+                model.sync_partners(nm, mod2, res)
+                stage2.append([nm, _ival(v)])
+            res.count("two_stage_assignments")
+            res.case((T, "stage2", tuple(map(tuple, stage2))))
+            observe(res, T, t, cls, mod2, model, dict(case, stage2=stage2), "second-stage assignment on a cloned (loaded) module")
         if res.evaluations % 50 == 1:
             res.sample(case)
 
